@@ -25,6 +25,7 @@ def run(ctx):
     _run(ctx)
     from . import c06
     c06.apply_after_signature(ctx, "author")
+    embedded_doc_rule(ctx)
 
 
 def _run(ctx):
@@ -262,3 +263,36 @@ def _run(ctx):
     idf = [(f, p) for f, p in swallow.cob_functions(db) if "cob::identity" in f["key"]]
     nsw = swallow.check(ctx, idf, "swallow", "ignored step error in identity evaluation")
     ctx.floor("swallow:identity", nsw, 1, "sites in identity evaluation where a step's error is ignored")
+
+
+def embedded_doc_rule(ctx):
+    """`Repository::identity_doc()` does not evaluate the identity COB: it reads `embeds/radicle.json` of the commit the
+    identity head points at, i.e. of the accepted revision's commit.  What the delegates sign is the blob named in the
+    revision action.  A revision may therefore be recorded only if the document embedded in its commit *is* that blob —
+    `from_root` checks it for the first revision; every later revision needs the same check (sibling rule)."""
+    db = ctx.db
+    import re as _re
+    from ..cfg import nshow as _ns
+    fns = [(r"^<radicle::cob::identity::Identity as radicle::cob::store::Cob>::from_root$", "from_root"),
+           (r"^radicle::cob::identity::Identity::action$", "action")]
+    for pat, label in fns:
+        fn = db.one(pat)
+        if fn is None:
+            ctx.violated("sib:revision:embedded-doc:%s" % label, "Identity::%s not found (anchor missing)" % label)
+            continue
+        news = [bb for bb, t, c in db.calls(fn) if (c.get("n") or "").endswith("identity::Revision::new")]
+        ctx.floor("revision:new:%s" % label, len(news), 1, "Revision::new sites in Identity::%s" % label)
+
+        def same_blob(f):
+            if f[0] != "cmp" or f[1] != "Eq":
+                return False
+            a, b = _ns(f[2]), _ns(f[3])
+            for x, y in ((a, b), (b, a)):
+                if _re.search(r"Doc::(load_at|blob_at)\(", x) and _re.search(r"as Revision\.blob|\bRevision\.blob", y):
+                    return True
+            return False
+        ok, allow, bad = rules.dom_check(db, fn, news, same_blob)
+        ctx.check("sib:revision:embedded-doc:%s" % label, bool(ok and allow and news),
+                  "a revision is recorded only if the document embedded in its commit (what Repository::identity_doc() reads back once the revision is "
+                  "accepted) is the blob the revision action names and the delegates sign",
+                  rules.where(fn, news[0] if news else None), detail={"path": list(bad.values())[:1]}, fn=fn)
